@@ -240,6 +240,18 @@ pub fn enumerated_rejects() -> Vec<NameCase> {
         }
     }
     out.push(NameCase { paths: vec![], maps: vec![("a".into(), "py".into()), ("b".into(), "nope".into())] });
+    // the unsupported mapping anywhere among several, the same key repeated with a supported grammar before or
+    // after it included (every mapping written on the command line is checked, not only the one that wins)
+    for maps in [
+        vec![("foo", "nope"), ("foo", "py")],
+        vec![("foo", "py"), ("foo", "nope")],
+        vec![("b", "nope"), ("a", "py")],
+        vec![("a", "py"), ("b", "nope"), ("c", "rs")],
+        vec![("py", "nope"), ("py", "rs")],
+        vec![("foo", "py"), ("foo", "nope"), ("foo", "rs")],
+    ] {
+        out.push(NameCase { paths: vec![], maps: maps.into_iter().map(|(k, v)| (k.to_string(), v.to_string())).collect() });
+    }
     out
 }
 
@@ -271,6 +283,6 @@ pub fn run(run: &mut Run) {
     run.rule = "enumerated: for each of the 39 registered suffixes 13..18 file-name shapes (x.s, x.y.s, hidden .x.s, dotted directories, spaces, x.s.bak, xs, trailing dot, double dot, s.x, x.rs.s, upper-case, whole-name forms for Makefile/makefile/go.mod/go.sum/go.work) in one tree, listed in scan mode and in diff mode (hidden files only count when named in the diff); 7 mapping keys (unregistered, registered, compound, upper-case) x all 39 values with 8 name shapes each; a multi-mapping tree; 21 rejected mappings. random (thorough weight): multi-dot names over registered/unregistered segments with 0..2 mappings. Files resolving to a grammar hold that language's golden blocks (one per comment form, ground truth by construction) followed by every string / here-doc / CDATA decoy of the language holding a tag look-alike (so that a neighbouring grammar gives a different answer); files resolving to none hold unbalanced tag garbage. Expected by a reference resolver. Non-trivial = a name that is not plain `stem.ext`, or a mapping.".into();
     run.assumptions = vec!["a file whose whole name equals an extension-style key (py, rs, c) is unspecified and not created".into()];
     run.enumerate("shapes", enumerated(), Some("name shapes x 39 suffixes; 7 mapping keys x 39 values"), check);
-    run.enumerate("rejects", enumerated_rejects(), Some("21 mappings onto unsupported grammars"), check_reject);
+    run.enumerate("rejects", enumerated_rejects(), Some("27 usages with a mapping onto an unsupported grammar (alone, among others, the same key repeated before / after a supported one)"), check_reject);
     run.random("random-names", run.tier.pick(300, 8000), random_case, check);
 }
